@@ -120,6 +120,7 @@ class CFG:
         self.preds = [b.get('preds') or [] for b in self.blocks]
         self.compute_doms()
         self.compute_loops()
+        self.compute_ipdom()
 
     def compute_doms(self):
         n = self.n
@@ -163,6 +164,36 @@ class CFG:
         self.loops = loops
         self.headers = sorted(loops.keys())
         self.ordinal = {h: i for i, h in enumerate(self.headers)}
+
+    def compute_ipdom(self):
+        """immediate post-dominators (virtual exit = -1); ipdom[b] is None when it is the exit"""
+        n = self.n
+        EXIT = n
+        succs = [list(s) if s else [EXIT] for s in self.succs] + [[]]
+        full = set(range(n + 1))
+        pdom = [set(full) for _ in range(n + 1)]
+        pdom[EXIT] = {EXIT}
+        changed = True
+        while changed:
+            changed = False
+            for b in range(n - 1, -1, -1):
+                new = set(full)
+                for s in succs[b]:
+                    new &= pdom[s]
+                new |= {b}
+                if new != pdom[b]:
+                    pdom[b] = new
+                    changed = True
+        self.ipdom = {}
+        for b in range(n):
+            cands = pdom[b] - {b}
+            best = None
+            for c in cands:
+                # immediate: the candidate that is post-dominated by all other candidates
+                if all((o == c) or (o in pdom[c]) for o in cands):
+                    best = c
+                    break
+            self.ipdom[b] = None if best is None or best == EXIT else best
 
     def innermost_loop(self, b):
         best = None
